@@ -1,3 +1,4 @@
+import BstreamVerif.Lemmas.Complete
 import BstreamVerif.Lemmas.ForkInv
 import BstreamVerif.Lemmas.SentInv
 /-!
@@ -71,6 +72,18 @@ theorem advanceAcc_lastSent (cfg : Config) (a : Acc) (b : Blk) (fi : Option Entr
               (withFirst fi (a.st.db.hasNewIrreversibleSegment cfg.fsb _).2.1) b.ref (fun i => (a.st.db.find i).map (·.blk))
             rw [hs]; rfl
 
+/-- when the declared ancestor is found and ends a new irreversible segment, the LIB moves to it -/
+theorem advanceAcc_moves (cfg : Config) (a : Acc) (b : Blk) (hf : a.failed = false) (last : Blk)
+    (hls : a.st.lastSent = some last) (hlibT : a.st.db.hasLIB = true) (R : Ref)
+    (hR : a.st.db.blockInChain last.ref last.lib = R) (hRne : R.id ≠ "")
+    (hnew : (a.st.db.hasNewIrreversibleSegment cfg.fsb R).1 = true) :
+    (advanceAcc cfg a b none).st.db.libRef = R := by
+  unfold advanceAcc
+  simp only [hf, Bool.false_eq_true, if_false, hls, hlibT, Bool.not_true, hR]
+  rw [if_neg (by simpa using hRne)]
+  exact (advanceTo_window cfg a b none R (by simp [hnew])).1
+
+
 /-- how one `ProcessBlock` changes the buffer: not at all; or the block is appended, sent marks change, and possibly the
     LIB moves up to a stored block `R` (whose reference carries its real, higher number) followed by the purge -/
 def DbShape (cfg : Config) (s : FState) (b : Blk) (s' : FState) : Prop :=
@@ -96,7 +109,11 @@ theorem processBlock_step (cfg : Config) (hnew : cfg.matches .new = true) (hundo
       DbShape cfg s b (processBlock cfg s b none).1 ∧
       (s.db.find b.id = none → ¬ (b.num < s.db.libRef.num ∧ s.lastSent.isSome = true) → triggers cfg s b = true →
         (∃ c cs, computeLongestChain cfg { s with db := appendBlk s.db b } b = some (c :: cs)) →
-        ∃ l, (processBlock cfg s b none).1.lastSent = some l ∧ l.ref = b.ref) := by
+        (∃ l, (processBlock cfg s b none).1.lastSent = some l ∧ l.ref = b.ref) ∧
+        (InitNumOK s.db → ∀ (ids : List Id) (x : Id) (ex : Entry),
+          IsPath (appendBlk s.db b) s.db.libRef.id ids → s.db.libRef.id ∉ ids → topOf s.db.libRef.id ids = b.id →
+          x ∈ ids → x ≠ b.id → (appendBlk s.db b).find x = some ex → ex.blk.num = b.lib →
+          (processBlock cfg s b none).1.db.libRef = ⟨x, b.lib⟩)) := by
   unfold processBlock
   rcases plan_cases cfg s b hni hI.libNe with ⟨⟨r, hr⟩, hwhy⟩ | ⟨hex, _, hnotdrop, u, rd, j, hsw, hpl⟩
   · rw [hr]
@@ -233,8 +250,70 @@ theorem processBlock_step (cfg : Config) (hnew : cfg.matches .new = true) (hundo
           advance_inv cfg hirr a hef hen b _ hI2 eb.blk hlastSent hcr hlibok
         have hmoved : (advanceAcc cfg a b none).st.lastSent = some eb.blk := by
           rw [advanceAcc_lastSent]; exact hlastSent
+        have hlibmove : InitNumOK s.db → ∀ (ids : List Id) (x : Id) (ex : Entry),
+            IsPath (appendBlk s.db b) s.db.libRef.id ids → s.db.libRef.id ∉ ids → topOf s.db.libRef.id ids = b.id →
+            x ∈ ids → x ≠ b.id → (appendBlk s.db b).find x = some ex → ex.blk.num = b.lib →
+            (advanceAcc cfg a b none).st.db.libRef = ⟨x, b.lib⟩ := by
+          intro hinit ids x ex hpi hni htopi hxin hxb hfx hexn
+          have hh1 := heights_append s.db b hI.heights hb hB
+          obtain ⟨pre, post, hsplit⟩ := List.append_of_mem hxin
+          have hsplit' : ids = (pre ++ [x]) ++ post := by rw [hsplit]; simp
+          have hpne : post ≠ [] := by
+            intro h0; subst h0
+            rw [hsplit'] at htopi; simp at htopi; exact hxb htopi
+          have hpp := hpi
+          rw [hsplit', isPath_append] at hpp
+          simp only [topOf_append_singleton] at hpp
+          have hnd := isPath_nodup _ _ _ hpi hni
+          have hxpost : x ∉ post := by
+            rw [hsplit] at hnd
+            exact (List.nodup_cons.mp (List.nodup_append.mp hnd).2.1).1
+          have htop2 : topOf x post = b.id := by
+            rw [← htopi, hsplit', topOf_append]; simp
+          have hbpost : b.id ∈ post := by
+            rcases topOf_mem x post with h | h
+            · rw [htop2] at h; exact absurd h.symm hxb
+            · rw [htop2] at h; exact h
+          have hself := find_append_self s.db b hf
+          have hxlow : ex.blk.num < b.num := by
+            have := heights_path (appendBlk s.db b) hh1 x ex.blk.num post hpp.2
+              (fun e he hpar => hh1.1 e he ex (find_mem _ x ex hfx) (by rw [hpar, find_id _ x ex hfx])) b.id hbpost
+              ⟨b, false⟩ hself
+            exact this
+          have hbic : (appendBlk s.db b).blockInChain b.ref ex.blk.num = ⟨x, ex.blk.num⟩ :=
+            blockInChain_complete (appendBlk s.db b) hh1 x ex hfx post hpp.2 hpne
+              (isPath_length_le _ x post hpp.2 hxpost) b.ref (by rw [htop2]; rfl) (by show b.num ≠ ex.blk.num; omega)
+          have hRa : a.st.db.blockInChain eb.blk.ref eb.blk.lib = ⟨x, b.lib⟩ := by
+            rw [hsame.blockInChain, hs3db, heblast.1, heblast.2, ← hexn]; exact hbic
+          have hpa : IsPath a.st.db a.st.db.libRef.id (pre ++ [x]) := by
+            rw [hsame.isPath, hsame.1, hs3lib, hs3db]; exact hpp.1
+          have hna : a.st.db.libRef.id ∉ pre ++ [x] := by
+            rw [hsame.1, hs3lib]; intro hm; exact hni (by rw [hsplit']; exact List.mem_append_left _ hm)
+          have hia : InitNumOK a.st.db := by
+            intro i n hin hid
+            rw [hsame.2.2, hs3db] at hin
+            rw [hsame.1, hs3lib] at hid ⊢
+            exact hinit i n hin hid
+          have hnumx : b.lib = a.st.db.numOf x := by
+            have hfb := hsame.find_blk x
+            rw [hs3db, hfx] at hfb
+            cases hfa' : a.st.db.find x with
+            | none => rw [hfa'] at hfb; simp at hfb
+            | some e1 =>
+              rw [hfa'] at hfb
+              simp only [Option.map_some, Option.some.injEq] at hfb
+              rw [numOf_of_find _ _ _ hfa', hfb, hexn]
+          have hnewa := hasNew_complete a.st.db (Forkable.SameBlks.heights hsame hI1.heights) hia cfg.fsb pre x hpa hna
+            ⟨x, b.lib⟩ rfl hnumx
+          have hxne : x ≠ "" := by
+            intro h0
+            have := wf_path_ne _ (inv_afterLink s P b none hI hb hB hf (by intro c cs h; cases h)).wf _ ids (by
+              show IsPath (appendBlk s.db b) s.db.libRef.id ids; exact hpi)
+            exact this (h0 ▸ hxin)
+          exact advanceAcc_moves cfg a b hef eb.blk hlastSent (hasLIB_of_id _ (by rw [hsame.1, hs3lib]; exact hI.libNe))
+            ⟨x, b.lib⟩ hRa hxne hnewa
         refine ⟨Q', ?_, hI3, Or.inr ⟨hf, (by first | rfl | trivial), eb.blk, ?_, heblast.1⟩, ?_, ?_,
-          fun _ _ _ _ => ⟨eb.blk, hmoved, heblast.1⟩⟩
+          fun _ _ _ _ => ⟨⟨eb.blk, hmoved, heblast.1⟩, hlibmove⟩⟩
         · show (⟨s.db.libRef.id, P⟩ : CS).run (finish (advanceAcc cfg a b none)).2.1 = _
           have : (finish (advanceAcc cfg a b none)).2.1 = a.evs ++ t := hevs
           rw [this, run_append, ← hs3lib, herun]
